@@ -286,6 +286,36 @@ def _failed_saves():
     p.read()
 
 
+def _short_array_chunks_and_macros():
+    """Files of older versions whose array chunks are shorter than today's (a MultiCtl / MetaModule mapping
+    table with a few entries, a short curve); MultiCtl.macro calls that are refused and ones that succeed."""
+    import struct
+
+    from rv.api import Project, Synth, m, read_sunvox_file
+    from vlib import chunktools
+
+    for cls, chnm, keep in ((m.MultiCtl, 0, 32), (m.MultiCtl, 1, 64), (m.MetaModule, 1, 4 * 64), (m.MultiSynth, 0, 64), (m.WaveShaper, 0, 128)):
+        chunks = chunktools.parse(Synth(cls()).read())
+        out = []
+        for i, (cid, pl) in enumerate(chunks):
+            if cid == b"CHDT" and i > 0 and chunks[i - 1] == (b"CHNM", struct.pack("<I", chnm)):
+                pl = pl[:keep]
+            out.append((cid, pl))
+        try:
+            mod = read_sunvox_file(BytesIO(chunktools.build(out))).module
+            mod.clone()
+        except Exception:  # noqa: BLE001
+            pass
+    p = Project()
+    a, b, s = p.new_module(m.Amplifier), p.new_module(m.Amplifier), p.new_module(m.Sampler)
+    for targets in ([(a, "volume"), (a, "balance")], [(a, "volume"), (b, "balance"), (s, "vibrato_depth")], [(x, "volume") for x in [p.new_module(m.Amplifier) for _ in range(17)]], [(b, "gain")]):
+        try:
+            m.MultiCtl.macro(p, *targets)
+        except Exception:  # noqa: BLE001 - refusals (two controllers of one module, too many targets) are part of the use
+            pass
+    p.read()
+
+
 def _surplus_and_missing_chunks():
     """Files as other SunVox versions write them: more CVAL/CMID records than the type declares
     controllers, fewer than it declares, unknown chunk ids, extra numbered CHNK entries."""
@@ -328,6 +358,7 @@ OPS = [
     _surplus_and_missing_chunks,
     _midi_bindings,
     _failed_saves,
+    _short_array_chunks_and_macros,
 ]
 
 # cheap ops that a check may run *inside* a case (between two observations of one object)
